@@ -509,6 +509,9 @@ func (e *Exec) copyElems(s *State, fam string, t types.Type, fromArr, fromOff, n
 		f := e.cur(s, p, []string{"Ref", "Int"}, so)
 		body := fmt.Sprintf("(=> (and (<= %s j) (< j (+ %s %s))) (= (%s %s j) (%s %s (+ %s (- j %s)))))", toOff, toOff, n, f, to, f, fromArr, fromOff, toOff)
 		s.assume("(forall ((j Int)) %s)", e.withPat(body, f, []string{to, "j"}))
+		// the same fact indexed from the source side (trigger on reads of the source array)
+		body2 := fmt.Sprintf("(=> (and (<= %s j) (< j (+ %s %s))) (= (%s %s (+ %s (- j %s))) (%s %s j)))", fromOff, fromOff, n, f, to, toOff, fromOff, f, fromArr)
+		s.assume("(forall ((j Int)) %s)", e.withPat(body2, f, []string{fromArr, "j"}))
 	})
 }
 
@@ -582,6 +585,10 @@ func (e *Exec) resolveModifies(ents []ModEntry, all bool, env *SpecEnv) *modSet 
 					m.add(p, famSig{nil, so}, func([]string) string { return "true" })
 				})
 			}
+		case "bt":
+			ref := env.refOf(env.eval(ent.Obj))
+			m.add("$bt.has", famSig{[]string{"Ref", "Int"}, "Bool"}, func(a []string) string { return fmt.Sprintf("(= %s %s)", a[0], ref) })
+			m.add("$bt.item", famSig{[]string{"Ref", "Int"}, "Ref"}, func(a []string) string { return fmt.Sprintf("(= %s %s)", a[0], ref) })
 		case "field", "object":
 			ov := env.eval(ent.Obj)
 			bt, isPtr := derefType(ov.T)
@@ -739,19 +746,20 @@ func (e *Exec) applyContract(s *State, con *Contract, args []Val, setRes func(*S
 	e.note("contract", con.Key)
 	e.usedContracts[con.Key] = true
 	pre := s.clone()
+	e.vacSeq++
+	vseq := e.vacSeq
+	if e.w.vacuity {
+		e.obls = append(e.obls, Oblig{Key: fmt.Sprintf("%s/vacuity@call#%s/pre%d", shortFunc(e.fname()), shortFunc(con.Key), vseq), Kind: "vacuity-pre", Func: e.fname(), Pre: append([]string{}, s.pc...), Goal: "false", Canary: true, Path: e.paths})
+	}
 	env := e.contractEnv(con, s, s, args)
 	for _, l := range con.Lets {
 		env.vars[l.Name] = env.eval(l.Expr)
 	}
 	short := shortFunc(con.Key)
 	for _, r := range con.Requires {
+		e.prove("requires@call", fmt.Sprintf("%s#%d", short, r.Ord), r.Tags, s, r.Expr, env, "requires "+r.Src+" of "+short+" at "+e.posStr(token.NoPos))
 		g, facts := e.evalClause(r.Expr, env)
-		st := s
-		if len(facts) > 0 {
-			st = s.clone()
-			st.pc = append(st.pc, facts...)
-		}
-		e.obligeK("requires@call", fmt.Sprintf("%s#%d", short, r.Ord), r.Tags, st, g, "requires "+r.Src+" of "+short+" at "+e.posStr(token.NoPos))
+		s.pc = append(s.pc, facts...)
 		s.assume("%s", g) // proved (or reported) above; later obligations may rely on it
 	}
 	// effects
@@ -779,7 +787,7 @@ func (e *Exec) applyContract(s *State, con *Contract, args []Val, setRes func(*S
 		s.assume("%s", g)
 	}
 	if e.w.vacuity {
-		e.obls = append(e.obls, Oblig{Key: shortFunc(e.fname()) + "/vacuity@call#" + short, Kind: "vacuity", Func: e.fname(), Pre: append([]string{}, s.pc...), Goal: "false", Canary: true, Path: e.paths, Pos: e.posStr(token.NoPos), Desc: "assumptions after applying the contract of " + short + " must be satisfiable"})
+		e.obls = append(e.obls, Oblig{Key: fmt.Sprintf("%s/vacuity@call#%s/post%d", shortFunc(e.fname()), short, vseq), Kind: "vacuity-post", Func: e.fname(), Pre: append([]string{}, s.pc...), Goal: "false", Canary: true, Path: e.paths, Pos: e.posStr(token.NoPos), Desc: "assumptions after applying the contract of " + short + " must be satisfiable"})
 	}
 }
 
@@ -801,13 +809,9 @@ func (e *Exec) applyCallback(s *State, cb *CallbackSpec, sig *types.Signature, a
 	env := mk(s, e.entry)
 	for _, r := range cb.Requires {
 		// at a callback site "old" refers to the enclosing function's entry state
+		e.prove("requires@callback", fmt.Sprintf("%s#%d", cb.Param, r.Ord), append(append([]string{}, e.con.Tags...), r.Tags...), s, r.Expr, env, "requires "+r.Src+" of callback "+cb.Param+" at "+e.posStr(token.NoPos))
 		g, facts := e.evalClause(r.Expr, env)
-		st := s
-		if len(facts) > 0 {
-			st = s.clone()
-			st.pc = append(st.pc, facts...)
-		}
-		e.obligeK("requires@callback", fmt.Sprintf("%s#%d", cb.Param, r.Ord), append(append([]string{}, e.con.Tags...), r.Tags...), st, g, "requires "+r.Src+" of callback "+cb.Param)
+		s.pc = append(s.pc, facts...)
 		s.assume("%s", g)
 	}
 	ms := e.resolveModifies(cb.Modifies, cb.ModAll, mk(pre, pre))
@@ -879,13 +883,11 @@ func (e *Exec) assertAts(s *State, callee string, args []Val, cc *ssa.CallCommon
 			}
 			env.vars[fmt.Sprintf("$%d", i)] = TV{a, t}
 		}
+		e.prove("assert-at", fmt.Sprintf("%d", aa.Clause.Ord), aa.Clause.Tags, s, aa.Clause.Expr, env, "assert-at call "+aa.Callee+": "+aa.Clause.Src+" at "+e.posStr(token.NoPos))
+		// proved (or reported) above: from here on it is a stepping stone for later obligations
 		g, facts := e.evalClause(aa.Clause.Expr, env)
-		st := s
-		if len(facts) > 0 {
-			st = s.clone()
-			st.pc = append(st.pc, facts...)
-		}
-		e.obligeK("assert-at", fmt.Sprintf("%d", aa.Clause.Ord), aa.Clause.Tags, st, g, "assert-at call "+aa.Callee+": "+aa.Clause.Src+" at "+e.posStr(token.NoPos))
+		s.pc = append(s.pc, facts...)
+		s.assume("%s", g)
 	}
 }
 
@@ -920,4 +922,57 @@ func (e *Exec) siteOrd(pat string, cc *ssa.CallCommon) int {
 		}
 	}
 	return -1
+}
+
+// splitGoal: conjunctions and quantified equivalences are proved piecewise (smaller queries, sharper reports)
+func splitGoal(x SExpr) []SExpr {
+	switch n := x.(type) {
+	case SBin:
+		if n.Op == "&&" {
+			return append(splitGoal(n.X), splitGoal(n.Y)...)
+		}
+		if n.Op == "<==>" {
+			return []SExpr{SBin{"==>", n.X, n.Y}, SBin{"==>", n.Y, n.X}}
+		}
+		if n.Op == "==>" {
+			parts := splitGoal(n.Y)
+			if len(parts) > 1 {
+				var out []SExpr
+				for _, p := range parts {
+					out = append(out, SBin{"==>", n.X, p})
+				}
+				return out
+			}
+		}
+	case SQuant:
+		if n.All {
+			parts := splitGoal(n.Body)
+			if len(parts) > 1 {
+				var out []SExpr
+				for _, p := range parts {
+					out = append(out, SQuant{All: true, Vars: n.Vars, Body: p})
+				}
+				return out
+			}
+		}
+	}
+	return []SExpr{x}
+}
+
+// prove: emit the obligations for one clause in state s
+func (e *Exec) prove(kind, ord string, tags []string, s *State, x SExpr, env *SpecEnv, desc string) {
+	parts := splitGoal(x)
+	for i, p := range parts {
+		g, facts := e.evalClause(p, env)
+		st := s
+		if len(facts) > 0 {
+			st = s.clone()
+			st.pc = append(st.pc, facts...)
+		}
+		o := ord
+		if len(parts) > 1 {
+			o = fmt.Sprintf("%s.%d", ord, i+1)
+		}
+		e.obligeK(kind, o, tags, st, g, desc)
+	}
 }
